@@ -244,6 +244,8 @@ def gen_program(rng):
         if rng.random() < 0.2:
             lv['opts']['rename'] = rng.choice(STYLES)
         if rng.random() < 0.2:
+            lv['opts']['out_format'] = rng.choice(('struct', 'tuple', 'tuple'))    # the output layout alone: the inherited input layouts stay
+        if rng.random() < 0.2:
             lv['opts']['allow_extra'] = rng.choice((True, False))
         if rng.random() < 0.2:
             lv['opts']['frozen'] = rng.choice((True, False))
@@ -261,7 +263,7 @@ def gen_program(rng):
 def resolve(levels):
     """Effective fields (ordered), options and parameters of the leaf class."""
     fields = {}          # name -> dict(ty, has_default, default, kw)
-    opts = {'in_format': ('struct',), 'rename': None, 'allow_extra': False, 'frozen': True, 'kw_only': False}
+    opts = {'in_format': ('struct',), 'out_format': 'struct', 'rename': None, 'allow_extra': False, 'frozen': True, 'kw_only': False}
     params = []
     for lv in levels:
         if lv['base_args'] is not None:
@@ -519,7 +521,14 @@ def run(ctx):
         if (ex.kind == 'value') != bool(opts['allow_extra']):
             ctx.violation('options-inherited', 'main', i, {**wit0, 'option': 'allow_extra', 'effective': opts['allow_extra'], 'with_extra_key': ex.brief()}, mech='inherited-allow_extra')
             return
-        if style:
+        od = observe(inst.into_data)
+        ctx.count('out_format_checks')
+        is_map = od.kind == 'value' and model.is_map(od.val)
+        is_seq = od.kind == 'value' and model.is_seq(od.val)
+        if od.kind != 'value' or (opts['out_format'] == 'struct') != is_map or (opts['out_format'] == 'tuple') != is_seq:
+            ctx.violation('options-inherited', 'main', i, {**wit0, 'option': 'out_format', 'effective': opts['out_format'], 'into_data': od.brief()}, mech='inherited-out_format')
+            return
+        if style and opts['out_format'] == 'struct':
             od = observe(inst.into_data)
             if od.kind != 'value' or [k_ for k_ in od.val.keys() if k_ != key('probe_f')] != [key(n) for n, f in exp_fields if f['ty'] is not None]:
                 ctx.violation('options-inherited', 'main', i, {**wit0, 'option': 'rename', 'effective': style, 'into_data': od.brief()}, mech='inherited-rename')
